@@ -391,4 +391,45 @@ example : rsaSize 65535 = 2 ∧ ([5] : Bytes).length + 1 ≤ rsaSize 65535 := by
 example : noTouchAllowed (.plain (.ed25519 [])) (some [(noTouchRequired, [])]) = true ∧
     noTouchAllowed (.plain (.ed25519 [])) (some [(nm "permit-pty", [])]) = false := by decide +kernel
 
+/-! ## constructors and signer compositions -/
+
+/-- NewSignerFromKey accepts nothing NewPublicKey would refuse (same key, same type) -/
+theorem newSignerFromKey_sub (k : GoKey) (p : PubKey) (h : newSignerFromKey k = some p) : newPublicKey k = some p := by
+  cases k <;> simp_all [newSignerFromKey, newPublicKey]
+
+/-- NewPublicKey refuses exactly: unsupported curves, Ed25519 keys that are not 32 bytes, foreign types -/
+theorem newPublicKey_none_iff (k : GoKey) :
+    newPublicKey k = none ↔
+      (∃ bits pt, k = .ecdsa bits pt ∧ bits ≠ 256 ∧ bits ≠ 384 ∧ bits ≠ 521) ∨ (∃ b, k = .ed25519 b ∧ b.length ≠ 32) ∨ k = .other := by
+  cases k with
+  | ecdsa bits pt =>
+    simp only [newPublicKey]
+    by_cases h : bits = 256 ∨ bits = 384 ∨ bits = 521
+    · simp [h]; omega
+    · simp [h]; omega
+  | ed25519 b => by_cases h : b.length = 32 <;> simp [newPublicKey, h]
+  | rsa e n => simp [newPublicKey]
+  | dsa p q g y => simp [newPublicKey]
+  | other => simp [newPublicKey]
+
+/-- a restricted signer under a certificate refuses what its list does not contain, whatever the
+    composition underneath (the certificate wrapper re-checks the list with the certificate's type) -/
+theorem certSigner_refuses_unlisted (ct : Bytes) (inner : SignerM) (alg : Bytes) (hm : inner.caps.2 = true)
+    (h : (if alg.isEmpty then underlyingAlgo ct else alg) ∉ inner.algorithms) :
+    (SignerM.cert ct inner).signWith alg = none := by
+  have : isAlgorithmSupported ct inner.algorithms alg = false := by
+    unfold isAlgorithmSupported; simpa using h
+  simp [SignerM.signWith, hm, this]
+
+/-- OBSERVATION (modelled as the code is): `Sign` of a signer restricted by NewSignerWithAlgorithms is the
+    embedded signer's `Sign` — it is not filtered by the list (an RSA signer restricted to rsa-sha2-256
+    still answers `Sign` with an ssh-rsa signature); only `SignWithAlgorithm` is -/
+theorem multi_sign_unrestricted (inner : SignerM) (algs : List Bytes) : (SignerM.multi inner algs).sign = inner.sign := rfl
+
+example : (SignerM.multi (.wrapped algoRSA) [algoRSASHA256]).sign = some algoRSA ∧
+    (SignerM.multi (.wrapped algoRSA) [algoRSASHA256]).signWith algoRSA = none ∧
+    (SignerM.cert certAlgoRSA (.multi (.wrapped algoRSA) [algoRSASHA256])).signWith [] = none ∧
+    (SignerM.cert certAlgoRSA (.hidden (.multi (.wrapped algoRSA) [algoRSASHA256]) true)).signWith algoRSASHA256 = some algoRSASHA256 ∧
+    newPublicKey (.ecdsa 224 []) = none ∧ newSignerFromKey (.dsa 5 3 2 1) = none := by decide +kernel
+
 end XC.C40
